@@ -130,9 +130,34 @@ def query_text(ob, relaxed=False):
     return txt
 
 
-def run_one(text, timeout=TIMEOUT, want_all=False, cover=False):
+def run_one(text, timeout=TIMEOUT, want_all=False, cover=False, cache_unknown=False):
     """portfolio: all solvers start together on the same SMT-LIB text; the first definitive answer wins
     (with want_all every solver is awaited, to detect disagreement).  returns (verdict, backend, seconds, details)"""
+    # PYVC_QUERY_CACHE (set ONLY by tools/seed_eval.py, never by a registered check): definitive answers are memoised by the
+    # hash of the complete query text, so that evaluating 120 seeded defects does not re-solve the unchanged functions' queries
+    cdir = os.environ.get("PYVC_QUERY_CACHE")
+    if cdir:
+        import hashlib, json as _json
+        key = os.path.join(cdir, hashlib.sha256((("C" if cover else "P") + text).encode()).hexdigest() + ".json")
+        if os.path.exists(key):
+            try:
+                v = _json.load(open(key))
+                return v[0], v[1], 0.0, [("cache", v[0], 0.0)]
+            except Exception:
+                pass
+        out = _run_one(text, timeout, want_all, cover)
+        if out[0] in ("sat", "unsat") or (cache_unknown and out[0] == "unknown"):  # open per-path covers are informational: memoised too (tooling only)
+            try:
+                os.makedirs(cdir, exist_ok=True)
+                _json.dump([out[0], (out[1] or "") + " (cached)"], open(key + ".tmp", "w"))
+                os.replace(key + ".tmp", key)
+            except Exception:
+                pass
+        return out
+    return _run_one(text, timeout, want_all, cover)
+
+
+def _run_one(text, timeout=TIMEOUT, want_all=False, cover=False):
     fd, path = tempfile.mkstemp(suffix=".smt2", prefix="pyvc_")
     with os.fdopen(fd, "w") as f:
         f.write(text)
@@ -203,9 +228,11 @@ def discharge(obligations, jobs=None, want_all=False):
             if not ob.expect_sat:
                 return TIMEOUT
             return req_t if "cover-requires" in ob.name else cover_t
-        outs = list(pool.map(lambda p: run_one(p[0], timeout=budget(p[1]), want_all=want_all, cover=p[1].expect_sat), zip(texts, obligations)))
+        outs = list(pool.map(lambda p: run_one(p[0], timeout=budget(p[1]), want_all=want_all, cover=p[1].expect_sat,
+                                               cache_unknown=p[1].expect_sat and "cover-requires" not in p[1].name), zip(texts, obligations)))
     # covers the solvers left open: second attempt without the universally quantified hypotheses (a weaker vacuity guard, recorded as such)
-    redo = [i for i, (ob, o) in enumerate(zip(obligations, outs)) if ob.expect_sat and o[0] == "unknown" and any(_has_forall(h) for h in ob.hyps)]
+    redo = [i for i, (ob, o) in enumerate(zip(obligations, outs))
+            if ob.expect_sat and "cover-requires" in ob.name and o[0] == "unknown" and any(_has_forall(h) for h in ob.hyps)]
     if redo:
         texts2 = [query_text(obligations[i], relaxed=True) for i in redo]  # z3py is not thread-safe: texts are built here, solvers run as processes
         with ThreadPoolExecutor(max_workers=jobs) as pool:
